@@ -5,6 +5,7 @@
 From Coq Require Import List NArith Bool.
 Import ListNotations.
 Require Import Base.Wire Base.PyStr C17.Model C17.Names C17.Lemmas C17.Witness C17.Final.
+Require gen.T17.
 
 (* Full statement (C17_atomic_any_cfg):
      forall cfg fn tok now chunk f0 ws k, token_ok tok = true -> digits_ok now = true ->
@@ -95,3 +96,52 @@ Theorem C17_backup_rule :
                = f0 (backup_name cfg fn now)).
 Proof. exact C17_backup_rule_l. Qed.
 Print Assumptions C17_backup_rule.
+
+(* Death by an exception that unwinds the stack (SystemExit raised by the SIGTERM
+   handler, KeyboardInterrupt, an I/O error at a write/close) after the first k
+   effects: the effects of the interrupted flush are that prefix followed by what
+   the unwinding does ([interrupted]; by the regenerated table T17: __del__ /
+   __exit__ roll back and no caller commits in a finally:/except: block).  Same
+   domain as C17_atomic_on_domain: the target is entirely old or entirely new.
+   [inited] = the exception is raised outside AtomicFile.__init__. *)
+Theorem C17_atomic_under_unwinding :
+  forall cfg fn tok now chunk (f0 : fs) (ws : list bytes) k inited,
+  token_ok tok = true -> digits_ok now = true -> same_fs cfg = true ->
+  let t := apply (interrupted cfg fn tok now chunk f0 (save_ops ws) k inited) f0 fn in
+  t = f0 fn \/ t = Some (concat ws) \/ (f0 fn = None /\ t = Some []).
+Proof. exact C17_atomic_under_unwinding_l. Qed.
+Print Assumptions C17_atomic_under_unwinding.
+
+(* ...and on every configuration (tmpDir on another file system included) it is old or a prefix of new. *)
+Theorem C17_unwinding_any_cfg_old_or_prefix :
+  forall cfg fn tok now chunk (f0 : fs) (ws : list bytes) k inited,
+  token_ok tok = true -> digits_ok now = true ->
+  let t := apply (interrupted cfg fn tok now chunk f0 (save_ops ws) k inited) f0 fn in
+  t = f0 fn \/ exists m, t = Some (firstn m (concat ws)).
+Proof. exact C17_unwinding_any_cfg_old_or_prefix_l. Qed.
+Print Assumptions C17_unwinding_any_cfg_old_or_prefix.
+
+(* An exception while the temp file is still open (any method-call sequence) removes the temp file. *)
+Theorem C17_unwinding_removes_temp :
+  forall cfg fn tok now chunk (f0 : fs) (ops : list op) k,
+  token_ok tok = true -> digits_ok now = true ->
+  existsb is_closeF (firstn k (effects cfg fn tok now chunk f0 ops)) = false ->
+  apply (interrupted cfg fn tok now chunk f0 ops k true) f0 (temp_name cfg fn tok) = None.
+Proof. exact C17_unwinding_removes_temp_l. Qed.
+Print Assumptions C17_unwinding_removes_temp.
+
+(* Full statement for an I/O error at a write (C17_atomic_under_write_error): as
+   C17_atomic_under_unwinding, for every caller.  It holds for the callers that
+   let the error propagate (that is C17_atomic_under_unwinding).  The pinned
+   registry.close violates it (finding F44): it wraps each value's fd.write in
+   try/except Exception (regenerated table: SWALLOW_WRITE_ERROR_SITES is not
+   empty), so the flush goes on and COMMITS a file without the failed chunk
+   ([swallowed_ops]); same file system, no crash needed. *)
+Theorem C17_write_error_swallowed_refuted :
+  exists cfg fn tok now chunk (f0 : fs) (ws : list bytes) j,
+  token_ok tok = true /\ digits_ok now = true /\ same_fs cfg = true /\
+  gen.T17.SWALLOW_WRITE_ERROR_SITES <> [] /\
+  let t := apply (effects cfg fn tok now chunk f0 (swallowed_ops ws j)) f0 fn in
+  ~ (t = f0 fn \/ t = Some (concat ws) \/ (f0 fn = None /\ t = Some [])).
+Proof. exact C17_write_error_swallowed_refuted_l. Qed.
+Print Assumptions C17_write_error_swallowed_refuted.
